@@ -13,6 +13,6 @@ LEVEL_TEXT = ('Serial Thrift transport: for a raise / EOF / timeout at each I/O 
               ' Added later: SocketTransportSink._PingLoop (every round that finds the transport active sends a ping, whatever is queued), so a silent peer is always met by the ping timeout.')
 LEVEL_NOTE = ('Trusted: pyvc encoding, z3; socket externs (open/close/write/readAll may raise; cannot succeed on a closed handle; a gevent Timeout may surface only in the serial transport\'s calls); Greenlet.kill; '
               'other greenlets change a mux transport only through the verified operations (CONCURRENCY["Mux"]). Not proved: that the ping loop keeps running (liveness); mux _OpenImpl/_CheckInitialConnection are not yet units.')
-ASSUMPTIONS = ['socket I/O externs as listed', 'Open() is issued on a transport that has not been closed']
+ASSUMPTIONS = ['socket I/O externs as listed; ScalesSocket.open itself is verified (a failed open leaves no handle, so isOpen() is false) against gevent socket connect/close contracts', 'Open() is issued on a transport that has not been closed']
 TRUSTED = []
 BOUNDED = []
